@@ -156,8 +156,11 @@ def extract(tus):
     with ThreadPoolExecutor(max_workers=min(16, max(1, len(paths)))) as ex:
         res = list(ex.map(_extract_one, paths))
     for p, _ in res:
-        os.utime(p)
-    _gc_cache(1200)
+        try:
+            os.utime(p)
+        except OSError:
+            pass
+    _gc_cache(5000)
     return [r[0] for r in res], sum(1 for r in res if r[1]), time.time() - t0
 
 
@@ -231,6 +234,7 @@ class Function:
         self._nodes = None
         self._parent = None
         self._cfg = None
+        self.rename = None          # decl id -> canonical (baseline) name, shared per TU; set by Facts
 
     @property
     def body(self):
@@ -254,6 +258,7 @@ class Function:
             return
         nodes, parent = {}, {}
         types = self.types
+        ren = self.rename
 
         def visit(root):
             stack = [(root, None)]
@@ -264,6 +269,18 @@ class Function:
                 t = x.get("t")
                 if isinstance(t, int):
                     x["t"] = types[t]
+                if ren:
+                    k_ = x.get("k")
+                    if k_ in ("ref", "var") and x.get("d") in ren and "n0" not in x:
+                        x["n0"], x["n"] = x.get("n"), ren[x["d"]]
+                    if k_ == "var" and x.get("bindings"):
+                        for b_ in x["bindings"]:
+                            if b_.get("d") in ren and "n0" not in b_:
+                                b_["n0"], b_["n"] = b_.get("n"), ren[b_["d"]]
+                    if k_ == "lambda" and x.get("caps"):
+                        for c_ in x["caps"]:
+                            if c_.get("d") in ren and "n0" not in c_:
+                                c_["n0"], c_["n"] = c_.get("n"), ren[c_["d"]]
                 nodes.setdefault(x["i"], x)
                 parent[x["i"]] = p
                 for ch in reversed(x.get("c", ())):
@@ -387,7 +404,165 @@ class Facts:
                 if k not in self.gvars:
                     g["t"] = types[g["t"]]
                     self.gvars[k] = g
+        self.renamed = 0
+        if os.environ.get("NANO_NO_CANON") != "1":
+            self._canonical_names()
         self.load_s = time.time() - t0
+
+    # -- canonical local names -------------------------------------------------------------------------------------------------
+    # The rules name local variables and parameters the way the sources name them today (names.json, generated by tools/mknames.py from
+    # the tree the rules were written against). A behaviour-preserving rename of a local must not change any verdict: when a function no
+    # longer declares all its baseline names, the leftover declarations are aligned in declaration order (same kind, then same type) with the
+    # leftover baseline names and printed / looked up under those. Uses are mapped through declaration ids, so using a *different* variable
+    # somewhere is not masked. Functions that still have all their baseline names are left untouched.
+    def stable_id(self, f):
+        if not f.is_lambda:
+            sib = sorted({(g.file, g.line) for g in self.by_qn.get(f.qn, []) if g.relfile == f.relfile and len(g.params) == len(f.params)})
+            return "%s|%s|%d|%d" % (f.relfile, f.qn, len(f.params), sib.index((f.file, f.line)) if (f.file, f.line) in sib else 0)
+        # lambdas: owner id + position among the owner's lambdas (source order)
+        owner, chain = f, 0
+        while owner is not None and owner.is_lambda and chain < 8:
+            ps = self.by_key.get(owner.parent) or []
+            owner = ps[0] if ps else None
+            chain += 1
+        if owner is None or owner.is_lambda:
+            return None
+        m = re.match(r"lambda@(.*?):(\d+):(\d+)@", f.key)
+        if not m:
+            return None
+        pos = (int(m.group(2)), int(m.group(3)))
+        allpos = self._lambda_positions.setdefault(owner.key, None)
+        if allpos is None:
+            allpos = set()
+            for g in self.functions.values():
+                if not g.is_lambda:
+                    continue
+                o2, c2 = g, 0
+                while o2 is not None and o2.is_lambda and c2 < 8:
+                    ps = self.by_key.get(o2.parent) or []
+                    o2 = ps[0] if ps else None
+                    c2 += 1
+                if o2 is owner:
+                    m2 = re.match(r"lambda@(.*?):(\d+):(\d+)@", g.key)
+                    if m2:
+                        allpos.add((int(m2.group(2)), int(m2.group(3))))
+            allpos = sorted(allpos)
+            self._lambda_positions[owner.key] = allpos
+        return "%s|L%d" % (self.stable_id(owner), allpos.index(pos) if pos in allpos else -1)
+
+    @staticmethod
+    def decl_sequence(f):
+        """(kind, name, type, decl id) of every parameter / local / structured binding / init-capture of f in declaration order"""
+        seq = []
+        types = f.types
+        for p in f.raw.get("params", []):
+            t = p.get("t")
+            seq.append(("p", p.get("n") or "", types[t] if isinstance(t, int) else (t or ""), p.get("d")))
+        stack = []
+        for root in list(f.raw.get("inits", [])) + [f.raw.get("body")]:
+            if root is not None:
+                stack.append(root)
+        order = []
+        while stack:
+            x = stack.pop()
+            if x is None:
+                continue
+            if x.get("k") == "var":
+                t = x.get("t")
+                order.append(("v", x.get("n0", x.get("n")) or "", types[t] if isinstance(t, int) else (t or ""), x.get("d"), x.get("i", 0)))
+                for b in x.get("bindings", ()):
+                    order.append(("b", b.get("n0", b.get("n")) or "", "", b.get("d"), x.get("i", 0)))
+            if x.get("k") == "lambda":
+                for c_ in x.get("caps", ()):
+                    if c_.get("init") and c_.get("d") is not None:
+                        order.append(("c", c_.get("n0", c_.get("n")) or "", "", c_.get("d"), x.get("i", 0)))
+            for ch in reversed(x.get("c", ())):
+                stack.append(ch)
+        seen = set()
+        for k, n, t, d, i in order:
+            if d in seen:
+                continue
+            seen.add(d)
+            seq.append((k, n, t, d))
+        return seq
+
+    def _canonical_names(self):
+        path = os.path.join(VERIF, "nv", "names.json")
+        if not os.path.exists(path):
+            return
+        with open(path) as fh:
+            base = json.load(fh)
+        self._lambda_positions = {}
+        per_tu = {}
+        for f in self.functions.values():
+            if not (f.file.startswith(REPO + "/") or "/witness/" in f.file):
+                continue
+            sid = self.stable_id(f)
+            if sid is None or sid not in base:
+                continue
+            B = base[sid]
+            A = self.decl_sequence(f)
+            if not A:
+                continue
+            anames = [a[1] for a in A]
+            bnames = [b[1] for b in B]
+            if all(bn in anames for bn in bnames):
+                continue                      # nothing renamed away
+            used_a, used_b = set(), set()
+            for i, a in enumerate(A):
+                if a[1] in bnames and a[1] and anames.count(a[1]) == 1 and bnames.count(a[1]) == 1:
+                    used_a.add(i)
+                    used_b.add(bnames.index(a[1]))
+            j = 0
+            pairs = []
+            for i, a in enumerate(A):
+                if i in used_a:
+                    continue
+                while j < len(B) and j in used_b:
+                    j += 1
+                # next free baseline declaration of the same kind (and type when available)
+                k = j
+                while k < len(B) and (k in used_b or B[k][0] != a[0]):
+                    k += 1
+                if k >= len(B):
+                    continue
+                kt = k
+                while kt < len(B) and (kt in used_b or B[kt][0] != a[0] or (B[kt][2] and a[2] and B[kt][2] != a[2])):
+                    kt += 1
+                if kt < len(B) and kt - k <= 2:
+                    k = kt
+                pairs.append((i, k))
+                used_b.add(k)
+            ren = per_tu.setdefault(f.tu, {})
+            # the renaming must be a bijection on *names* (several declarations may share a name in different scopes)
+            n2b = {anames[i]: anames[i] for i in used_a}
+            b2n = dict(n2b)
+            ok = True
+            local = {}
+            for i, k in pairs:
+                an, bn = A[i][1], B[k][1]
+                if not an and not bn:
+                    continue
+                if not an or not bn or n2b.get(an, bn) != bn or b2n.get(bn, an) != an:
+                    ok = False
+                    break
+                n2b[an], b2n[bn] = bn, an
+                if A[i][3] is not None:
+                    local[A[i][3]] = bn
+            paired = {p_[0] for p_ in pairs}
+            leftover = [a_[1] for i, a_ in enumerate(A) if a_[1] and i not in used_a and i not in paired]
+            if not ok or any(n_ in b2n and b2n[n_] != n_ for n_ in leftover):
+                continue                      # a collision would make two variables print alike: leave this function alone
+            for d_, n_ in local.items():
+                ren[d_] = n_
+                self.renamed += 1
+        for f in self.functions.values():
+            ren = per_tu.get(f.tu)
+            if ren:
+                f.rename = ren
+                for p_ in f.params:
+                    if p_.get("d") in ren and "n0" not in p_:
+                        p_["n0"], p_["n"] = p_.get("n"), ren[p_["d"]]
 
     # -- queries
     def fn(self, qn, file=None, where=None):
